@@ -639,6 +639,50 @@ func (c *c18case) runAll(cx *lib.Ctx) {
 			}
 		}
 		res.Count(fmt.Sprintf("unknown-content-canaries:%d", min(len(c.g.canaries), 3)))
+		// the unaffected part is what it would be anyway: an entry of the root object that only looks at block
+		// types written without any dynamic block (at any depth) decodes exactly as in the written-out body
+		if os, ok := spec.(hcldec.ObjectSpec); ok && uv.Type().IsObjectType() {
+			touched := map[string]bool{}
+			var hasDyn func(b *dbody) bool
+			hasDyn = func(b *dbody) bool {
+				for _, it := range b.items {
+					if it.dyn != nil || (it.static != nil && hasDyn(it.static.body)) {
+						return true
+					}
+				}
+				return false
+			}
+			for _, it := range c.db.items {
+				switch {
+				case it.dyn != nil:
+					touched[it.dyn.typ] = true
+				case it.static != nil && hasDyn(it.static.body):
+					touched[it.static.typ] = true
+				}
+			}
+			written := decode(wf.Body, spec, c.ctx)
+			if written.panicked == nil && !written.diags.HasErrors() && !expanded.diags.HasErrors() {
+				wv, _ := written.val.UnmarkDeep()
+				for k, sub := range os {
+					clean := true
+					for _, bs := range hcldec.ImpliedSchema(sub).Blocks {
+						if touched[bs.Type] {
+							clean = false
+						}
+					}
+					if !clean || !uv.Type().HasAttribute(k) || !wv.Type().IsObjectType() || !wv.Type().HasAttribute(k) {
+						continue
+					}
+					res.Count("check:unknown-unaffected-entry")
+					if a, b := lib.DumpValue(uv.GetAttr(k)), lib.DumpValue(wv.GetAttr(k)); a != b {
+						res.Fail(lib.Failure{Kind: "oracle", Key: "unknown-for_each:unaffected-entry-differs" + specAfter(c.spec),
+							Desc:  "entry " + k + " of the specification only looks at block types written without any dynamic block, yet with an unknown for_each elsewhere in the body it decodes differently from the written-out body",
+							Input: c.input("unknown"), Impl: a, Model: b})
+						break
+					}
+				}
+			}
+		}
 		return
 	}
 
